@@ -168,6 +168,10 @@ def _run_sync(ctx, inv, ev, script):
             return ex
         elif op == 'read_bus':
             _read_bus(ctx, inv, ev)
+        elif op == 'spawn':
+            # a background task started by the handler (it inherits the handler's context) and not awaited by it
+            t = asyncio.ensure_future(_run_script(ctx, inv, ev, st[1]))
+            ctx.spawned = getattr(ctx, 'spawned', []) + [t]
         else:
             raise AssertionError(f'sync step {op}')
     return None
@@ -198,6 +202,9 @@ async def _run_script(ctx, inv, ev, script):
                 return None
         elif op == 'sleep':
             await inv.sleep(_val(ctx, st[1]))
+        elif op == 'spawn':
+            t = asyncio.ensure_future(_run_script(ctx, inv, ev, st[1]))
+            ctx.spawned = getattr(ctx, 'spawned', []) + [t]
         elif op == 'sleep_cleanup':
             try:
                 await inv.sleep(_val(ctx, st[1]))
